@@ -473,8 +473,11 @@ def run_case(case):
 # --------------------------------------------------------------------------
 # generators
 # --------------------------------------------------------------------------
-def gen_heap(rng, max_objs=14):
+def gen_heap(rng, max_objs=14, deep=False):
     count = [0]
+    limit = 4 if deep else 3
+    cont = [1.0, 0.9, 0.8, 0.6] if deep else [1.0, 0.75, 0.5]
+    width = 2 if deep else 3
 
     def item(depth):
         count[0] += 1
@@ -487,11 +490,11 @@ def gen_heap(rng, max_objs=14):
 
     def fill(n, depth):
         n["a"], n["b"], n["s"] = [], [], None
-        if depth >= 3:
+        if depth >= limit:
             return
-        p = [1.0, 0.75, 0.5][depth]
+        p = cont[depth]
         if rng.chance(p):
-            for _ in range(rng.randint(1, 3)):
+            for _ in range(rng.randint(1, width)):
                 if count[0] < max_objs:
                     n["a"].append(item(depth + 1))
         if rng.chance(p * 0.6):
@@ -560,13 +563,55 @@ def all_names(maxlen=3):
     return res
 
 
-def gen_case(rng, mode=None):
+def gen_focus_seq(rng):
+    """expressions around the places where the visited set, the first-element rule and
+    repetition interact: a leading '*' (or '^') over navigation, then name steps"""
+    def navs(k, modes):
+        return [{"k": "nav", "mode": rng.weighted(modes), "name": rng.weighted([("a", 6), ("b", 3), ("r", 2), ("rs", 2), ("s", 1)])}
+                for _ in range(k)]
+
+    kind = rng.weighted([("star-nav", 5), ("star-br", 3), ("caret", 3), ("nested", 2)])
+    tail = navs(rng.randint(1, 2), [("c", 8), ("t", 2)])
+    if kind == "star-nav":
+        head = [{"k": "star", "e": navs(1, [("t", 6), ("c", 4)])[0]}]
+        lead = None
+    elif kind == "star-br":
+        alts = [{"lead": rng.weighted([(None, 6), (2, 3)]), "elems": navs(rng.randint(1, 2), [("t", 6), ("c", 4)])}
+                for _ in range(rng.randint(1, 2))]
+        head = [{"k": "star", "e": {"k": "br", "seq": alts}}]
+        lead = None
+    elif kind == "caret":
+        head = [{"k": "star", "e": navs(1, [("c", 6), ("t", 4)])[0]}] if rng.chance(0.6) else []
+        lead = "^"
+    else:
+        inner = {"k": "star", "e": navs(1, [("t", 7), ("c", 3)])[0]}
+        head = [{"k": "star", "e": {"k": "br", "seq": [{"lead": None, "elems": [inner] + navs(1, [("t", 5), ("c", 5)])}]}}]
+        lead = None
+    seq = [{"lead": lead, "elems": head + tail}]
+    if rng.chance(0.25):
+        seq.insert(rng.below(2), gen_path(rng, 1))
+    return seq
+
+
+def ancestors(sp, o):
+    out = []
+    p = sp.parent(o)
+    while p is not None:
+        out.append(p)
+        p = sp.parent(p)
+    return out
+
+
+def gen_case(rng, mode=None, focus=None):
     mode = mode or rng.weighted([("find", 15), ("grammar", 4), ("reg", 1)])
-    root = gen_heap(rng)
+    focus = rng.chance(0.4) if focus is None else focus
+    root = gen_heap(rng, deep=focus and rng.chance(0.7))
     flags = rng.weighted([("", 6), ("p", 4)])
     split = rng.weighted([(".", 6), ("/", 2), ("::", 2)])
     n0 = len(heap_list(root))
     at = rng.below(n0)
+    if focus and n0 > 1:  # start inside the tree rather than at the root
+        at = 1 + rng.below(n0 - 1)
     if mode == "find":
         add_refs(rng, root)
         frm = at
@@ -577,7 +622,7 @@ def gen_case(rng, mode=None):
     want = rng.chance(0.8)
     names = all_names()
     for attempt in range(6):
-        seq = gen_seq(rng)
+        seq = gen_focus_seq(rng) if focus else gen_seq(rng)
         cls = rng.weighted([(None, 3), ("Item", 4), ("Named", 2), ("A", 3), ("B", 2), ("C", 1)])
         if mode != "find" and cls is None:
             cls = "Item"
@@ -585,6 +630,13 @@ def gen_case(rng, mode=None):
         if not want:
             break
         good = [c for c in rng.shuffle(names) if Spec(root, c).targets(seq, frm, cls)]
+        if good and focus:
+            # prefer matches below the start object (reached through the start object itself)
+            sp0 = Spec(root, [])
+            below = {i for i in range(len(sp0.objs)) if i != frm and frm in ancestors(sp0, i)}
+            deep = [c for c in good if Spec(root, c).targets(seq, frm, cls) & below]
+            if deep and rng.chance(0.7):
+                good = deep
         if good:
             # prefer long names
             good.sort(key=lambda c: -len(c))
@@ -834,8 +886,9 @@ class Prop(Check):
         "Rrel.C11_split",
     ]
     DRIVER = "Drivers/Rrel.lean"
-    QUICK_CASES = 600
-    THOROUGH_CASES = 30000
+    QUICK_CASES = 400
+    THOROUGH_CASES = 20000
+    PROCS_THOROUGH = 4
     RULE = ("generated RREL expressions (navigation, '~', fixed-name '~', '.', '..', '^', parent(T), '*', brackets, ',', "
             "with and without '+p:') x generated models (<= 15 nested named/unnamed objects of 3 classes, name collisions, "
             "single/list cross references with cycles) x reference names of 1..3 parts, through rrel.find, grammar-attached "
@@ -845,8 +898,20 @@ class Prop(Check):
     FUEL = 1000000
 
     def gen(self, rng, n, tier):
-        for k in range(n):
-            yield gen_case(rng.fork(str(k)))
+        k = produced = 0
+        while produced < n:
+            r = rng.fork(str(k))
+            k += 1
+            case = gen_case(r)
+            yield case
+            produced += 1
+            if tier != "quick" and case["mode"] == "find" and r.chance(0.1):
+                # the same model and expression with every reference name of up to 3 parts
+                for ns in all_names():
+                    c = dict(case, name=case["split"].join(ns))
+                    c.pop("as_list", None)
+                    yield c
+                    produced += 1
 
     def impl(self, case):
         return run_case(case)
